@@ -100,7 +100,8 @@ def gen_user(draw):
     probes = [[i, j, draw(gen.encode(gen.fractions(), ("int", "dec", "frac", "decp")))]
               for i, j in draw(st.lists(st.sampled_from(pairs + [(0, 0)]), min_size=2, max_size=8))]
     triples = [[draw(st.integers(0, n - 1)) for _ in range(3)] for _ in range(draw(st.integers(0, 3)))]
-    return {"k": "user", "n": n, "form": draw(st.sampled_from(["map", "list"])), "rows": rows,
+    return {"k": "user", "n": n, "form": draw(st.sampled_from(["map", "list", "list", "proxy", "chain", "userdict"])),
+            "rows": rows,
             "consistent": consistent, "probes": probes, "triples": triples, "defs": defs,
             "tamt": draw(gen.encode(gen.fractions(), ("dec", "frac")))}
 
@@ -160,6 +161,14 @@ def run_case(case, ctx):
                 ctx.viol("temp/via_equal", f"{q!r} via {w} = {via!r}, direct {direct!r}")
         if not (direct == q) or not (q == direct):
             ctx.viol("temp/equal", f"{q!r}.convert({v}) = {direct!r} does not compare equal to the original")
+        # a quantity divided by a unit of its type is its amount in that unit (C02's cancelling quotient)
+        try:
+            quot = q / v
+        except Exception as exc:  # noqa: BLE001
+            ctx.viol(f"temp/div_unit/{type(exc).__name__}", f"{q!r} / {v} raised {type(exc).__name__}: {exc}")
+        else:
+            if isinstance(quot, (float, Quantity)) or F(quot) != F(direct.amount):
+                ctx.viol("temp/div_unit/value", f"{q!r} / {v} = {quot!r}; {q!r} is {direct!r}")
         # comparison across units
         y = exact(case["amt2"])
         p = Quantity(mknum(case["amt2"]), v)
@@ -197,10 +206,27 @@ def run_case(case, ctx):
     table = {}
     for i, j, f, o in case["rows"]:
         table[(i, j)] = (exact(f), exact(o))
-    if case["form"] == "map":
-        conv = TableConverter({(units[i], units[j]): (mknum(f), mknum(o)) for i, j, f, o in case["rows"]})
+    form = case["form"]
+    as_map = {(units[i], units[j]): (mknum(f), mknum(o)) for i, j, f, o in case["rows"]}
+    if form == "map":
+        conv = TableConverter(as_map)
+    elif form == "proxy":
+        # any Mapping is a table
+        import types
+        conv = TableConverter(types.MappingProxyType(as_map))
+    elif form == "chain":
+        import collections
+        ks = list(as_map)
+        conv = TableConverter(collections.ChainMap({k: as_map[k] for k in ks[::2]}, {k: as_map[k] for k in ks[1::2]}))
+    elif form == "userdict":
+        import collections
+        conv = TableConverter(collections.UserDict(as_map))
     else:
         conv = TableConverter([(units[i], units[j], mknum(f), mknum(o)) for i, j, f, o in case["rows"]])
+        # a second table for the same unit pairs that is never registered (a rule of thumb kept for display
+        # purposes, say) is none of this type's business
+        TableConverter([(units[i], units[j], mknum(f) + 1, mknum(o) - 1) for i, j, f, o in case["rows"]])
+        ctx.label("decoy_table")
     T.register_converter(conv)
     ctx.label(f"form/{case['form']}")
     ctx.label("consistent" if case["consistent"] else "one_direction")
